@@ -161,10 +161,11 @@ def make_sessions(ctx, n):
         k = ("one", "two", "table", "counts", "table2")[sid % 5]
         a, b, fn, args = [], [], None, None
         if k in ("one", "two"):
-            a = zipf_sample(ctx.rng, ctx.rng.randint(2, 40), ctx.rng.randint(1, 12))
+            large = sid % 20 in (1, 5, 6, 10)              # samples far beyond the exhaustive bounds (size thresholds, bulk code paths)
+            a = zipf_sample(ctx.rng, ctx.rng.choice([1030, 2500, 5000]) if large else ctx.rng.randint(2, 40), ctx.rng.randint(1, 12))
             vk = ctx.rng.choice(["int", "float"])
             if k == "two":
-                b = zipf_sample(ctx.rng, ctx.rng.randint(1, 40), ctx.rng.randint(1, 12))
+                b = zipf_sample(ctx.rng, ctx.rng.choice([700, 3000]) if large else ctx.rng.randint(1, 40), ctx.rng.randint(1, 12))
                 call = lambda: prs.pc(sample_of(a, vk), sample_of(b, vk))      # noqa: E731
             else:
                 call = lambda: prs.pc(sample_of(a, vk))                         # noqa: E731
@@ -196,6 +197,15 @@ def make_sessions(ctx, n):
                 else:
                     call = lambda: prs.pc_joint(table_of(a, v), list(table_of(a, v).columns))   # noqa: E731
         raised, ret, special = False, [0, 1], ""
+        if k in ("one", "two") and len(a) > 1000:
+            ev = dict(op="PcBig", raised=False, num=0, integral=False)
+            try:
+                x = float(call()) * (len(a) * (len(b) if b else len(a) - 1))
+                ev.update(num=int(round(x)), integral=abs(x - round(x)) <= 1e-6 * max(1.0, abs(x)))
+            except Exception:       # noqa: BLE001
+                ev["raised"] = True
+            out.append(dict(sid=sid, kind=k, a=a, b=b, big=True, events=[ev]))
+            continue
         try:
             ret, special = ratio.snap(call())
         except Exception:       # noqa: BLE001
@@ -225,15 +235,19 @@ def run(ctx):
                 ctx.traces += 1
     ctx.exhaustive = True
     sessions = make_sessions(ctx, 60 if ctx.quick else 600)
-    verd = tcm.validate(ctx, "TraceCoincidence", sessions, constants=TRACE_CONSTS, invariants=("PcExact", "InUnitInterval", "JoinInjective"))
+    verd = tcm.validate(ctx, "TraceCoincidence", [s for s in sessions if not s.get("big")], constants=TRACE_CONSTS, invariants=("PcExact", "InUnitInterval", "JoinInjective"))
+    # large samples: the pair-counting definition itself (PcExact) is quadratic, only the machine is stepped
+    bigs = [{k: v for k, v in s.items() if k != "big"} for s in sessions if s.get("big")]
+    if bigs:
+        verd.update(tcm.validate(ctx, "TraceCoincidence", bigs, constants=TRACE_CONSTS))
     for s in sessions:
         ctx.traces += 1
-        ctx.case(dict(kind="session:" + s["kind"], n=len(s["a"]), n2=len(s["b"]), ret=s["events"][0]["ret"]), nontrivial=True)
+        ctx.case(dict(kind="session:" + s["kind"], n=len(s["a"]), n2=len(s["b"]), ret=s["events"][0].get("ret", s["events"][0].get("num"))), nontrivial=True)
         for l, op, clause in tcm.failures(verd[s["sid"]]):
             ctx.violation(f"pc/{s['kind']}/session/{clause}", f"pc-family call on {s['kind']} a={s['a']} b={s['b']}: {clause}, returned {s['events'][0]}"[:500],
                           dict(kind="session", session=s))
     # corrupted trace
-    c = copy.deepcopy(sessions[0])
+    c = copy.deepcopy(next(s for s in sessions if not s.get("big")))
     c["sid"] = 990001
     c["events"][0]["ret"] = [c["events"][0]["ret"][0] + 1, c["events"][0]["ret"][1] + 1]
     v = tcm.validate(ctx, "TraceCoincidence", [c], constants=TRACE_CONSTS, count=False)
